@@ -33,6 +33,9 @@ Judge(t) ==
                THEN [ok |-> FALSE, why |-> r.why \o ":empty-root-lost:" \o HD!LostKind(HD!Docs(t.ein), HD!Docs(t.eout)), at |-> r.at]
                ELSE IF r.why = "scalar value"
                THEN [ok |-> FALSE, why |-> "value:" \o H!DiffClass(H!Norm(t.ein[r.at]).v, H!Norm(t.eout[r.at]).v), at |-> r.at]
+               ELSE IF r.why = "tag" /\ (LET ds == {j \in 1 .. r.at : t.ein[j].k = "DocumentStart"}
+                                          IN  ds # {} /\ H!RedefinesDefault(t.ein[CHOOSE j \in ds : \A i \in ds : i <= j]))
+               THEN [ok |-> FALSE, why |-> "tag:default-handle-redefined", at |-> r.at]
                ELSE [ok |-> FALSE, why |-> r.why, at |-> r.at]
 
 Init == tid \in 1 .. Len(Traces)
